@@ -215,8 +215,8 @@ def run(chk):
       chk.ob('C15-R1', True, None, 'scanner search %s' % text, '', fi=fi, node=node,
              nontrivial=False)
       continue
-    key = (top, text)
-    if key in ALLOWED:
+    key = next((k for k in ALLOWED if k[1] == text), None)
+    if key is not None:
       seen_allowed.add(key)
       chk.ob('C15-R1', True, None, 'confirmed site %s' % text, ALLOWED[key], fi=fi, node=node)
       continue
@@ -287,6 +287,21 @@ def run(chk):
            dotted(y.value.elts[0]) == 'idx' for y in ys) and len(ys) >= 5
   chk.ob('C15-R2', ok, None, 'Traverse yields (idx, state, status) triples', '', fi=tv.fi,
          nontrivial=False)
+
+  rc = m.func('RemoveComments')
+  apps = [c for c in walk_local(rc.node) if isinstance(c, ast.Call) and call_tail(c) == 'append']
+  ok = bool(apps)
+  for c in apps:
+    a0 = c.args[0] if c.args else None
+    if not (isinstance(a0, ast.Subscript) and tt.kind(rc, a0.value) == 'T' and
+            not isinstance(a0.slice, ast.Slice)):
+      ok = False
+  joins = [c for c in walk_local(rc.node) if isinstance(c, ast.Call) and call_tail(c) == 'join']
+  chk.ob('C15-R2', ok and bool(joins), None,
+         'RemoveComments copies the characters the scanner yields verbatim',
+         'RemoveComments appends %s: characters of the program (including those '
+         'inside string literals) are rewritten before parsing' % [
+             norm(c.args[0], 40) for c in apps if c.args], fi=rc)
 
   chk.rule('C15-R3', 'comment / string states of the scanner: comments are '
            'skipped (continue) without being yielded, string states switch '
